@@ -101,11 +101,11 @@ example : IsLogical64 0xF0F0F0F0F0F0F0F0#64 false 0x33#6 4#6 := by unfold IsLogi
 theorem addsub_sound (v : BitVec 64) (h : isAddSubImm v = true) :
     addSubImmValue (!(v.ule 0xFFF#64)) (if v.ule 0xFFF#64 then v.truncate 12 else (v >>> 12).truncate 12) = v := by
   simp only [isAddSubImm, addSubImmValue] at *
-  bv_decide
+  bv_decide (config := { timeout := 300 })
 
 theorem addsub_complete (sh : Bool) (imm12 : BitVec 12) : isAddSubImm (addSubImmValue sh imm12) = true := by
   simp only [isAddSubImm, addSubImmValue]
-  cases sh <;> simp <;> bv_decide
+  cases sh <;> simp <;> bv_decide (config := { timeout := 300 })
 
 /-! ### 8-bit floating-point immediates (`VFPExpandImm`) -/
 
@@ -113,34 +113,34 @@ theorem fp32_sound (v : BitVec 64) (hv : v &&& 0xFFFFFFFF00000000#64 = 0#64) (h 
     vfpExpandImm 32 ((encodeFp32ToImm8 v).truncate 8) = v ∧ (encodeFp32ToImm8 v).ult 256#32 = true := by
   simp only [isFp32Imm8, isFpImm8Generic, encodeFp32ToImm8, encodeFpToImm8Generic, vfpExpandImm] at *
   simp at *
-  bv_decide
+  bv_decide (config := { timeout := 300 })
 
 theorem fp32_complete (i : BitVec 8) : isFp32Imm8 (vfpExpandImm 32 i) = true ∧ (vfpExpandImm 32 i) &&& 0xFFFFFFFF00000000#64 = 0#64 := by
   simp only [isFp32Imm8, isFpImm8Generic, vfpExpandImm]
   simp
-  bv_decide
+  bv_decide (config := { timeout := 300 })
 
 theorem fp64_sound (v : BitVec 64) (h : isFp64Imm8 v = true) :
     vfpExpandImm 64 ((encodeFp64ToImm8 v).truncate 8) = v ∧ (encodeFp64ToImm8 v).ult 256#32 = true := by
   simp only [isFp64Imm8, isFpImm8Generic, encodeFp64ToImm8, encodeFpToImm8Generic, vfpExpandImm] at *
   simp at *
-  bv_decide
+  bv_decide (config := { timeout := 300 })
 
 theorem fp64_complete (i : BitVec 8) : isFp64Imm8 (vfpExpandImm 64 i) = true := by
   simp only [isFp64Imm8, isFpImm8Generic, vfpExpandImm]
   simp
-  bv_decide
+  bv_decide (config := { timeout := 300 })
 
 theorem fp16_sound (v : BitVec 64) (hv : v &&& 0xFFFFFFFFFFFF0000#64 = 0#64) (h : isFp16Imm8 v = true) :
     vfpExpandImm 16 ((encodeFp16ToImm8 v).truncate 8) = v ∧ (encodeFp16ToImm8 v).ult 256#32 = true := by
   simp only [isFp16Imm8, isFpImm8Generic, encodeFp16ToImm8, encodeFpToImm8Generic, vfpExpandImm] at *
   simp at *
-  bv_decide
+  bv_decide (config := { timeout := 300 })
 
 theorem fp16_complete (i : BitVec 8) : isFp16Imm8 (vfpExpandImm 16 i) = true ∧ (vfpExpandImm 16 i) &&& 0xFFFFFFFFFFFF0000#64 = 0#64 := by
   simp only [isFp16Imm8, isFpImm8Generic, vfpExpandImm]
   simp
-  bv_decide
+  bv_decide (config := { timeout := 300 })
 
 /-! ### 64-bit byte-mask immediates (MOVI Dd / Vd.2D) and move-wide sequences (MOV Xd/Wd, #imm) -/
 
@@ -149,14 +149,14 @@ theorem movseq32 (imm rd x : BitVec 32) (r0 : BitVec 64) (hrd : rd.ult 32#32 = t
   unfold encodeMovSequence32
   simp only []
   split
-  · simp only [execMovSeq, movWideOk, movWideVal, Prod.mk.injEq]; bv_decide
+  · simp only [execMovSeq, movWideOk, movWideVal, Prod.mk.injEq]; bv_decide (config := { timeout := 300 })
   split
-  · simp only [execMovSeq, movWideOk, movWideVal, Prod.mk.injEq]; bv_decide
+  · simp only [execMovSeq, movWideOk, movWideVal, Prod.mk.injEq]; bv_decide (config := { timeout := 300 })
   split
-  · simp only [execMovSeq, movWideOk, movWideVal, Prod.mk.injEq]; bv_decide
+  · simp only [execMovSeq, movWideOk, movWideVal, Prod.mk.injEq]; bv_decide (config := { timeout := 300 })
   split
-  · simp only [execMovSeq, movWideOk, movWideVal, Prod.mk.injEq]; bv_decide
-  · simp only [execMovSeq, movWideOk, movWideVal, Prod.mk.injEq]; bv_decide
+  · simp only [execMovSeq, movWideOk, movWideVal, Prod.mk.injEq]; bv_decide (config := { timeout := 300 })
+  · simp only [execMovSeq, movWideOk, movWideVal, Prod.mk.injEq]; bv_decide (config := { timeout := 300 })
 
 theorem movseq64_x (imm : BitVec 64) (rd : BitVec 32) (r0 : BitVec 64) (hrd : rd.ult 32#32 = true) :
     execMovSeq rd r0 (encodeMovSequence64 imm rd 1#32) = (true, imm) := by
@@ -165,7 +165,7 @@ theorem movseq64_x (imm : BitVec 64) (rd : BitVec 32) (r0 : BitVec 64) (hrd : rd
   · rename_i hle
     rw [movseq32 _ _ _ _ hrd (by decide)]
     simp only [Prod.mk.injEq, true_and]
-    bv_decide
+    bv_decide (config := { timeout := 300 })
   · rename_i hgt
     simp only []
     split
@@ -175,14 +175,14 @@ theorem movseq64_x (imm : BitVec 64) (rd : BitVec 32) (r0 : BitVec 64) (hrd : rd
       by_cases h2 : (BitVec.truncate 32 (imm >>> (16 * 2) &&& 65535#64) == 0#32) = true <;>
       by_cases h3 : (BitVec.truncate 32 (imm >>> (16 * 3) &&& 65535#64) == 0#32) = true <;>
       simp only [h0, h1, h2, h3, if_true, if_false, Bool.false_eq_true, List.nil_append, List.cons_append, execMovSeq, movWideOk, movWideVal, Prod.mk.injEq] <;>
-      bv_decide
+      bv_decide (config := { timeout := 300 })
     · simp only [List.foldl, movnStep]
       by_cases h0 : (BitVec.truncate 32 (imm >>> (16 * 0) &&& 65535#64) == 65535#32) = true <;>
       by_cases h1 : (BitVec.truncate 32 (imm >>> (16 * 1) &&& 65535#64) == 65535#32) = true <;>
       by_cases h2 : (BitVec.truncate 32 (imm >>> (16 * 2) &&& 65535#64) == 65535#32) = true <;>
       by_cases h3 : (BitVec.truncate 32 (imm >>> (16 * 3) &&& 65535#64) == 65535#32) = true <;>
       simp only [h0, h1, h2, h3, if_true, if_false, Bool.false_eq_true, List.nil_append, List.cons_append, List.isEmpty_nil, List.isEmpty_cons, execMovSeq, movWideOk, movWideVal, Prod.mk.injEq] <;>
-      bv_decide
+      bv_decide (config := { timeout := 300 })
 
 /-- a 32-bit destination: the assembler first masks the value to 32 bits (`imm_value &= 0xFFFFFFFF`) -/
 theorem movseq64_w (imm : BitVec 64) (rd : BitVec 32) (r0 : BitVec 64) (hrd : rd.ult 32#32 = true)
@@ -192,7 +192,7 @@ theorem movseq64_w (imm : BitVec 64) (rd : BitVec 32) (r0 : BitVec 64) (hrd : rd
   simp only [himm, if_true]
   rw [movseq32 _ _ _ _ hrd (by decide)]
   simp only [Prod.mk.injEq, true_and]
-  bv_decide
+  bv_decide (config := { timeout := 300 })
 
 /-- never more than the 4 words the caller's buffer holds, never an empty sequence -/
 theorem movseq64_length (imm : BitVec 64) (rd x : BitVec 32) :
@@ -211,7 +211,7 @@ theorem movseq64_length (imm : BitVec 64) (rd x : BitVec 32) :
       by_cases h2 : (BitVec.truncate 32 (imm >>> (16 * 2) &&& 65535#64) == 0#32) = true <;>
       by_cases h3 : (BitVec.truncate 32 (imm >>> (16 * 3) &&& 65535#64) == 0#32) = true <;>
       simp only [h0, h1, h2, h3, if_true, if_false, Bool.false_eq_true, List.nil_append, List.cons_append, List.length_cons, List.length_nil] <;>
-      first | decide | (exfalso; bv_decide)
+      first | decide | (exfalso; bv_decide (config := { timeout := 300 }))
     · simp only [List.foldl, movnStep]
       by_cases h0 : (BitVec.truncate 32 (imm >>> (16 * 0) &&& 65535#64) == 65535#32) = true <;>
       by_cases h1 : (BitVec.truncate 32 (imm >>> (16 * 1) &&& 65535#64) == 65535#32) = true <;>
